@@ -1954,6 +1954,10 @@ def catalogue(t):
             ext[mid_] = dict(mats=(0, 1), writes=(1,))
         F('m4ri/triangular.c', cfn, lfn, externs=ext, fuels=['(v_B_nrows).toNat + (v_B_ncols).toNat'] * 4,
           doc='regime switch + block recursion (the base kernels, the recursive calls and the product are function parameters)')
+    F('m4ri/triangular.c', 'mzd_trtri_upper', 'trtriUpperRec', retparam='U',
+      externs={'mzd_trtri_upper_russian': dict(mats=(0,), writes=(0,)), 'mzd_trtri_upper': dict(mats=(0,), writes=(0,))},
+      doc='inversion of an upper triangular matrix: regime switch on nrows*ncols vs 2*L3 (size_t arithmetic), split, the two '
+          'translated TRSM routines on windows, two recursive calls (function parameters)')
     PLE_EXT = {'_mzd_ple': dict(mats=(0,), perms=(1, 2), ret='i', writes=(0,), pwrites=(1, 2)),
                '_mzd_trsm_lower_left': dict(mats=(0, 1), writes=(1,)),
                'mzd_addmul': dict(mats=(0, 1, 2), writes=(0,)),
